@@ -1,8 +1,8 @@
 package rules
 
 import (
-	"strings"
 	"fmt"
+	"strings"
 
 	"golang.org/x/tools/go/ssa"
 
